@@ -390,6 +390,30 @@ theorem C08_invariant (items : List Item) (sched : List CapAns) :
   let h := runSteps_inv items sched
   ⟨h.bytes, h.waiting, h.eos, h.done⟩
 
+/-! ## What is reserved: never more than the chunk in hand -/
+
+/-- **C08_reserve_exact**: while a chunk of `len` bytes is being sent, the successive
+reservations are exactly `min(remaining, CHUNK_SIZE)`, `remaining` being `len` minus what the
+earlier polls of this chunk sent — for every schedule. (Not a fixed `CHUNK_SIZE`: capacity that
+is reserved but cannot be used is taken from the peer's connection window and from the other
+streams.) -/
+theorem C08_reserve_exact (chunk : Bytes) (sched : List CapAns) :
+    (sendChunk chunk sched).polls.map (·.reserved) =
+      expectedReserves chunk.length ((sendChunk chunk sched).polls.map (·.sent)) :=
+  sendChunk_reserves chunk sched
+
+/-- **C08_reserve_within_chunk**: over the whole body, every reservation is at most the length
+of a chunk the body actually produced (and at most `CHUNK_SIZE`: `C08_frame_bound`): a body that
+trickles 1-byte chunks never holds more than 1 byte of the peer's window while it waits. -/
+theorem C08_reserve_within_chunk (items : List Item) (sched : List CapAns) :
+    ∀ p ∈ (sendBody items sched).polls,
+      p.reserved ≤ chunkSize ∧ ∃ bs, Item.chunk bs ∈ items ∧ p.reserved ≤ bs.length :=
+  fun p hp => ⟨(sendBody_polls items sched p hp).2.1, sendBody_reserved_le items sched p hp⟩
+
+/-- instance: chunks of 1 and 3 bytes under grants 1, 2, 1 reserve 1, 3, 1 -/
+example : (sendBody [.chunk [9], .chunk [1, 2, 3]] [.cap 1, .cap 2, .cap 1]).polls.map (·.reserved) = [1, 3, 1] := by
+  decide
+
 /-! ## A stream reset by the peer: `poll_capacity → None` ends the response -/
 
 /-- **C08_closed_stops_pulling**: when a waiting task is told that its stream is gone
